@@ -2043,12 +2043,13 @@ func (dsc *dataStoreCommand) fieldAddInt(keyName, fieldName string, delta int64)
 	if exists {
 		var err error
 		oldInt, err := strconv.ParseInt(oldVal.(string), 10, 64)
-		if err != nil {
+		if err != nil || strconv.FormatInt(oldInt, 10) != oldVal.(string) {
+			// not the canonical text of a 64-bit integer
 			ve = VALUE_WRONG_FORMAT
 			return
 		}
 		newVal := oldInt + delta
-		if (newVal > value) != (delta > 0) {
+		if (delta > 0 && newVal < oldInt) || (delta < 0 && newVal > oldInt) {
 			ve = VALUE_OVERFLOW
 			return
 		}
